@@ -118,6 +118,10 @@ theorem issueNextVote_spec {σ σ' : State} {d : Nat} {acts : List Action} (hQ :
     simp only [Except.ok.injEq, Prod.mk.injEq] at h; obtain ⟨rfl, rfl⟩ := h
     exact ⟨h3, (actsOK_append P good _ _).mpr ⟨ha1, by simp [ActsOK, EnsureOK]⟩⟩
 
+theorem fastFinish_ok {σ : State} {acts : List Action} (aStep v : Nat) (hQ : QRoot P good σ.root) (ha : ActsOK P good acts) :
+    QRoot P good (fastFinish σ acts aStep v).1.root ∧ ActsOK P good (fastFinish σ acts aStep v).2 :=
+  ⟨hQ, (actsOK_append P good _ _).mpr ⟨ha, by simp [ActsOK, EnsureOK]⟩⟩
+
 theorem issueFastVote_spec {σ σ' : State} {acts : List Action} (hQ : QRoot P good σ.root)
     (h : issueFastVote P σ = .ok (σ', acts)) : QRoot P good σ'.root ∧ ActsOK P good acts := by
   unfold issueFastVote at h
@@ -145,15 +149,14 @@ theorem issueFastVote_spec {σ σ' : State} {acts : List Action} (hQ : QRoot P g
   have hb : ActsOK P good (acts₁ ++ [Action.broadcastVotes (e1 ++ (e2 ++ e3))]) :=
     (actsOK_append P good _ _).mpr ⟨ha1, by simp [ActsOK, EnsureOK]⟩
   split at h
-  · simp only [Except.ok.injEq, Prod.mk.injEq] at h; obtain ⟨rfl, rfl⟩ := h
-    exact ⟨h5, (actsOK_append P good _ _).mpr ⟨hb, by split <;> simp [ActsOK, EnsureOK]⟩⟩
+  · simp only [Except.ok.injEq] at h
+    split at h <;> (show QRoot P good (σ', acts).1.root ∧ ActsOK P good (σ', acts).2; rw [← h]; exact fastFinish_ok P good _ _ h5 hb)
   · split at h
     · cases h
     rename_i σ₆ ns hn
     obtain ⟨h6, _⟩ := nextStatus_spec P good h5 hn
     repeat' split at h
-    all_goals (simp only [Except.ok.injEq, Prod.mk.injEq] at h; obtain ⟨rfl, rfl⟩ := h
-               exact ⟨h6, (actsOK_append P good _ _).mpr ⟨hb, by simp [ActsOK, EnsureOK]⟩⟩)
+    all_goals (simp only [Except.ok.injEq] at h; show QRoot P good (σ', acts).1.root ∧ ActsOK P good (σ', acts).2; rw [← h]; exact fastFinish_ok P good _ _ h6 hb)
 
 theorem enterPeriod_spec {σ σ' : State} {src : Thresh} {target : Nat} {acts : List Action} (hQ : QRoot P good σ.root)
     (h : enterPeriod P σ src target = .ok (σ', acts)) : QRoot P good σ'.root ∧ ActsOK P good acts := by
@@ -408,7 +411,8 @@ theorem pvoteFinish_spec {fuel : Nat} {verified : Bool} {taskIndex : Nat} {tail 
   split at h
   · cases h
   rename_i σ₁ suffix hp
-  obtain ⟨h1, h2⟩ := handlePayload_spec P good (σ := ⟨_, σ.root⟩) hQ (by intro hv; cases hv) hp
+  have hq : ∀ pl', QRoot P good (⟨pl', σ.root⟩ : State).root := fun _ => hQ
+  obtain ⟨h1, h2⟩ := handlePayload_spec P good (hq _) (by intro hv; cases hv) hp
   simp only [Except.ok.injEq, Prod.mk.injEq] at h; obtain ⟨rfl, rfl⟩ := h
   exact ⟨h1, (actsOK_append P good _ _).mpr ⟨ha, h2⟩⟩
 
@@ -417,7 +421,8 @@ theorem pvoteGo_spec {fuel : Nat} {verified : Bool} {v : PVote} {taskIndex : Nat
     (h : pvoteGo P fuel verified v taskIndex tail ef σ = .ok (σ', acts)) : QRoot P good σ'.root ∧ ActsOK P good acts := by
   unfold pvoteGo at h
   split at h
-  · exact pvoteFinish_spec P good (σ := ⟨_, σ.root⟩) hQ (by simp [ActsOK, EnsureOK]) h
+  · have hq : ∀ pl', QRoot P good (⟨pl', σ.root⟩ : State).root := fun _ => hQ
+    exact pvoteFinish_spec P good (hq _) (acts := [Action.verifyVote v.round v.period (pendingPush σ.pl tail).2]) (by simp [ActsOK, EnsureOK]) h
   split at h
   · exact pvoteFinish_spec P good hQ (by simp [ActsOK, EnsureOK]) h
   · exact pvoteFinish_spec P good hQ (by simp [ActsOK, EnsureOK]) h
@@ -446,17 +451,17 @@ theorem handlePVote_spec {fuel : Nat} {σ σ' : State} {verified : Bool} {bad : 
 
 /-- what the verifiers guarantee about an event delivered in state `σ`: votes delivered as verified satisfy the per-vote
 predicate of their (round, period, step); a validated payload is a block of the player's round -/
-def EventOK (σ : State) : Event → Prop
+def EventOK (σ : State) : Player.Event → Prop
   | .vote verified bad r p s x => verified = true → bad ≠ 2 → bad ≠ 3 → bad ≠ 1 → good r p s x = true
   | .bundle verified bad r p s value votes eqs =>
     verified = true → bad ≠ 2 → bad ≠ 3 → bad ≠ 1 → ∀ x ∈ bundleVotes value votes eqs, good r p s x = true
   | .payload verified bad p _ => verified = true → bad ≠ 2 → bad ≠ 1 → p.round = σ.pl.round
   | _ => True
 
-theorem handle_spec (hg : GoodSpec good) {σ σ' : State} {ev : Event} {acts : List Action} (hQ : QRoot P good σ.root)
-    (hev : EventOK good σ ev) (h : handle P σ ev = .ok (σ', acts)) : QRoot P good σ'.root ∧ ActsOK P good acts := by
+theorem handle_spec (hg : GoodSpec good) {σ σ' : State} {ev : Player.Event} {acts : List Action} (hQ : QRoot P good σ.root)
+    (hev : EventOK good σ ev) (h : Player.handle P σ ev = .ok (σ', acts)) : QRoot P good σ'.root ∧ ActsOK P good acts := by
   have hQ₀ := QRoot_updσ P good 0 hQ
-  unfold handle at h
+  unfold Player.handle at h
   simp only [] at h
   cases ev with
   | vote verified bad r p s x =>
@@ -504,38 +509,40 @@ theorem handle_spec (hg : GoodSpec good) {σ σ' : State} {ev : Event} {acts : L
       obtain ⟨h1, h2⟩ := issueSoftVote_spec P good (σ := ⟨_, _⟩) hQ₀ hs
       simp only [Except.ok.injEq, Prod.mk.injEq] at h; obtain ⟨rfl, rfl⟩ := h
       exact ⟨h1, h2⟩
+    have hq : ∀ pl', QRoot P good (⟨pl', σ.root.upd P σ.pl 0⟩ : State).root := fun _ => hQ₀
     split at h
-    · exact issueNextVote_spec P good (σ := ⟨_, _⟩) hQ₀ h
+    · exact issueNextVote_spec P good (hq _) h
     split at h
-    · exact issueNextVote_spec P good (σ := ⟨_, _⟩) hQ₀ h
+    · exact issueNextVote_spec P good (hq _) h
     · simp only [Except.ok.injEq, Prod.mk.injEq] at h; obtain ⟨rfl, rfl⟩ := h; exact ⟨hQ₀, trivial⟩
   | fastTimeout entropy =>
     simp only [] at h
     split at h
     · simp only [Except.ok.injEq, Prod.mk.injEq] at h; obtain ⟨rfl, rfl⟩ := h; exact ⟨hQ₀, trivial⟩
-    · exact issueFastVote_spec P good (σ := ⟨_, _⟩) hQ₀ h
+    · have hq : ∀ pl', QRoot P good (⟨pl', σ.root.upd P σ.pl 0⟩ : State).root := fun _ => hQ₀
+      exact issueFastVote_spec P good (hq _) h
   | roundInterruption r => exact enterRoundK_spec P good (handleThresh_spec P good _) (σ := ⟨_, _⟩) hQ₀ h
   | checkpoint r p s err =>
     simp only [Except.ok.injEq, Prod.mk.injEq] at h; obtain ⟨rfl, rfl⟩ := h; exact ⟨hQ₀, by simp [ActsOK, EnsureOK]⟩
 
 /-- every event of the list meets `EventOK` in the state it is delivered in -/
-def RunOK : State → List Event → Prop
+def RunOK : State → List Player.Event → Prop
   | _, [] => True
-  | σ, e :: rest => EventOK good σ e ∧ ∀ σ' as, handle P σ e = .ok (σ', as) → RunOK σ' rest
+  | σ, e :: rest => EventOK good σ e ∧ ∀ σ' as, Player.handle P σ e = .ok (σ', as) → RunOK σ' rest
 
-theorem run_spec (hg : GoodSpec good) : ∀ (es : List Event) {σ σ' : State} {ass : List (List Action)},
-    QRoot P good σ.root → RunOK P good σ es → run P σ es = .ok (σ', ass) →
+theorem run_spec (hg : GoodSpec good) : ∀ (es : List Player.Event) {σ σ' : State} {ass : List (List Action)},
+    QRoot P good σ.root → RunOK P good σ es → Player.run P σ es = .ok (σ', ass) →
     QRoot P good σ'.root ∧ ∀ as ∈ ass, ActsOK P good as := by
   intro es
   induction es with
   | nil =>
     intro σ σ' ass hQ _ h
-    simp only [run, Except.ok.injEq, Prod.mk.injEq] at h
+    simp only [Player.run, Except.ok.injEq, Prod.mk.injEq] at h
     obtain ⟨rfl, rfl⟩ := h
     exact ⟨hQ, by intro as h; cases h⟩
   | cons e rest ih =>
     intro σ σ' ass hQ hrun h
-    simp only [run] at h
+    simp only [Player.run] at h
     split at h
     · cases h
     rename_i σ₁ as₁ hh
